@@ -308,10 +308,16 @@ def c04_bs_cases(scn: dict, tier: str, salt: int) -> tuple[list[dict], dict]:
                                          "norm_eps": NORM_EPS_DEFAULT, "reg_eps": REG_EPS_DEFAULT})
             for K in ((2, 100) if (conflict and e == 0) else (10,)):
                 cases.append(base | {"kind": "mgda", "agg": "mgda", "K": K, "e": e})
-            if scn["stationary"]:
-                cnt["bs_cagrad_stationary_not_judged"] += 1
-            elif f["rho2"] < B.RHO2_MIN:
-                cnt["bs_cagrad_near_stationary_not_judged"] += 1
+            if scn["stationary"] or f["rho2"] < B.RHO2_MIN:
+                # exactly or nearly Pareto-stationary (the model decides d2/tr < 1e-6): the conic optimum is degenerate
+                # and CAGrad's output is dominated by solver noise amplified by |g0|/|g_w|.  C04's quantifier names
+                # stationary and badly scaled matrices, so these ARE judged; failures there are the recorded known
+                # finding C04:CAGrad:at_or_near_stationarity_badly_scaled (one stable key for the whole class, which
+                # the model delimits exactly; any failure outside the class keeps its own key).
+                cnt["bs_cagrad_stationary_not_judged" if scn["stationary"] else "bs_cagrad_near_stationary_not_judged"] += 0
+                cnt["bs_cagrad_near_or_at_stationarity_judged"] = cnt.get("bs_cagrad_near_or_at_stationarity_judged", 0) + 1
+                if e == 0:
+                    cases.append(base | {"kind": "cagrad", "agg": "cagrad", "c": 1.0, "e": e, "ns": True})
             else:
                 cnt["bs_cagrad_judged_instances"] += 1
                 for c in (CAGRAD_CS if (main and e == 0) else (1.0,)):
@@ -439,7 +445,8 @@ def eval_c04(case: dict) -> list[tuple[str, str]]:
         allow = 1e-6 * s_hi * an + (8 * math.sqrt(1.1920929e-07) if f32 else 1e-11) * s2_hi
         for i, p in enumerate(prod):
             if not (p >= -allow):
-                fails.append((key + ":cagrad", f"CAGrad(c={case['c']:g}) {desc}: (J.A(J))[{i}] = {p:.6e} < -1e-6 s |A(J)| = {-allow:.6e}"))
+                k2 = "C04:CAGrad:at_or_near_stationarity_badly_scaled" if case.get("ns") else key + ":cagrad"
+                fails.append((k2, f"CAGrad(c={case['c']:g}) {desc}: (J.A(J))[{i}] = {p:.6e} < -1e-6 s |A(J)| = {-allow:.6e}"))
                 break
             if not (p >= -strict):
                 fails.append(("__obs__", f"CAGrad(c={case['c']:g}) {desc}: (J.A(J))[{i}] = {p:.6e} (|A| = {an:.4f}, weights "
